@@ -29,6 +29,8 @@ def global_read_discipline(ctx, rule='C12-R1'):
         ctx.saw(f)
         if e.kind == 'assign' and e.value == G:
             continue    # a local alias: its uses are judged where they happen (terms are substituted)
+        if e.kind == 'return' and e.ctx and e.value == G:
+            continue    # an expanded accessor handing the dictionary to its caller: judged where the caller uses it
         if q in WRITERS:
             ctx.ok(rule, f'{q}: documented writer reads the global', e.loc())
             continue
